@@ -545,3 +545,6 @@ REGISTRY["C20"]["theorems"] += T("Proofs.C20c", "BLDFM.C20", ["sector_is_neg_ang
 # C09: the stability correction IS the integral of the flux-gradient function (integral form, both sides of neutral)
 REGISTRY["C09"]["theorems"] += T("Proofs.C09c", "BLDFM.C09", ["phiM_hasDerivAt_zero", "fluxGradIntegrand_continuousOn", "psi_integral_unstable",
                                                                "fluxGradIntegrandStable_eq", "psi_integral_stable"])
+
+# C11: over-request = exact request at the level of the returned result
+REGISTRY["C11"]["theorems"] += T("Proofs.C11c", "BLDFM.C11", ["solveOk_of_geom_eq", "clamp_output"])
